@@ -343,7 +343,7 @@ class SpecGen:
         rng = self.rng
         if depth <= 0:
             return self.leaf()
-        c = rng.choice(['chain', 'chain', 'pipe', 'dict', 'list', 'coalesce', 'coalesce', 'or', 'switch', 'switch', 'matchlist', 'matchdict', 'leaf', 'recovered-then'])
+        c = rng.choice(['chain', 'chain', 'pipe', 'dict', 'list', 'coalesce', 'coalesce', 'or', 'switch', 'switch', 'matchlist', 'matchdict', 'matchdict-plain-keys', 'leaf', 'recovered-then'])
         self.shape.append(c)
         if c == 'leaf':
             return self.leaf()
@@ -388,6 +388,12 @@ class SpecGen:
             n = self.tag()
             return Pipe(Val({'a': TARGETS[self.style]}),
                         Match({Or('nope%d' % n, M == 'nope%d' % self.tag(), str): Auto(self._gen(depth - 1))}),
+                        Val(TARGETS[self.style]))
+        if c == 'matchdict-plain-keys':
+            # a Match-mode dict with plain string keys, the failure in the value spec of the second key
+            n = self.tag()
+            return Pipe(Val({'p': 1, 'q': TARGETS[self.style]}),
+                        Match({'p': int, 'q': Auto(self._gen(depth - 1))}),
                         Val(TARGETS[self.style]))
         if c == 'recovered-then':
             return (Coalesce(self.failing_alt(), self.failing_alt(), T), self._gen(depth - 1))
@@ -483,6 +489,11 @@ def check_message(col, msg, root, target, desc, key, width):
         return col.violation('C05/wrong-target-for-failing-spec',
                              '%s: the failing spec %s received %s but the nearest Target line says %r\n%s'
                              % (desc, short(fmt_full(failing.spec), 100), short(fmt_full(failing.target), 120), tline and tline.text, msg), wit)
+    # (2') the trace respects the terminal width at every depth: no Target / Spec line is longer than the width
+    for ln in tokens:
+        if ln.kind in ('Target', 'Spec') and len(ln.raw) > width:
+            return col.violation('C05/trace-line-wider-than-the-terminal:depth-%d' % min(ln.depth, 3),
+                                 '%s: a %s line at depth %d is %d columns wide (width %d): %r' % (desc, ln.kind, ln.depth, len(ln.raw), width, ln.raw), wit)
     # (4') a value that fits on its line is shown as it is: no part of a plain value may be replaced by an ellipsis
     for ln, value in ((first, target), (tline, failing.target)):
         if _plain(value) and '...' in ln.text and '...' not in repr(value) and len(ln.raw) - len(ln.text) + len(repr(value)) <= width:
